@@ -79,6 +79,35 @@ def run(chk):
         inputs.append(b"function main() -> void { int[] a = " + b"{" * d)
     inputs += [b"@shots(99999999999) function main() -> void { }", b"@shots(5) function main() -> void { }",
                b"@quantum function f() -> bit { qubit q; return measure q; }", b"function main() -> void { int[99999999999] a; }"]
+    # structured analyser hazards: inheritance graphs with cycles, self-extension, chains leading into a cycle (under many class
+    # names: the analyser's maps are hash-ordered), mutually recursive generic bounds, very deep hierarchies
+    POOL = ["A", "B", "C", "D", "E", "Z", "Leaf", "Child", "Sub", "Q1", "Node", "Base", "Mid", "Top", "K9", "Zeta", "alpha", "M", "N", "P"]
+    for _ in range(900 if chk.thorough else 160):
+        k = rng.randrange(2, 7)
+        names = rng.sample(POOL, k)
+        decls = []
+        for i, n in enumerate(names):
+            mode = rng.random()
+            if mode < 0.25:
+                ext = ""
+            elif mode < 0.35:
+                ext = " extends " + n                      # self
+            else:
+                ext = " extends " + rng.choice(names)
+            decls.append("class %s%s { public constructor() -> %s = default; }" % (n, ext, n))
+        rng.shuffle(decls)
+        inputs.append(("\n".join(decls) + "\nfunction main() -> void { }").encode())
+    for _ in range(40 if chk.thorough else 10):
+        a, b = rng.sample(POOL, 2)
+        inputs.append(("class %s<T extends %s<T>> { public constructor() -> %s<T> = default; }\nclass %s<U extends %s<U>> { public constructor() -> %s<U> = default; }\n"
+                       "function main() -> void { }" % (a, b, a, b, a, b)).encode())
+    for depth in (30, 150 if chk.thorough else 80):
+        chain = ["class H0 { public constructor() -> H0 = default; public virtual function m() -> int { return 0; } }"]
+        for i in range(1, depth):
+            chain.append("class H%d extends H%d { public constructor() -> H%d = default; public %s function m() -> int { return %d; } }"
+                         % (i, i - 1, i, "override" if i == depth - 1 else "virtual override", i))
+        rng.shuffle(chain)
+        inputs.append(("\n".join(chain) + "\nfunction main() -> void { H0 h = new H%d(); echo(h.m()); }" % (depth - 1)).encode())
     plines = ["parse " + hx(b) for b in inputs]
     clines = ["check " + hx(b) for b in inputs]
     exe = harness()
